@@ -51,6 +51,12 @@ pub struct Tr<'a> {
     pub cur_call: RefCell<Option<(bool, Vec<Expr>)>>,
     /// names of methods of the spec that take `&mut self`
     pub mut_methods: &'a std::collections::HashSet<String>,
+    /// bodies of the parameterless closures bound by `let`
+    pub thunks: RefCell<Vec<Expr>>,
+    /// active write-backs of aliases created by `get_or_insert_with`: (place, value to store, e.g. "(Some (a_, b_))")
+    pub writebacks: RefCell<Vec<(Expr, String)>>,
+    /// buffer for effects hoisted out of the expression being translated (`mem::replace`)
+    pub hoist: RefCell<Option<Vec<String>>>,
     /// innermost translated loop: (term for `continue`, term for `break`)
     pub loops: RefCell<Vec<(String, String)>>,
     /// ambient binders in scope (see TypeInfo::ambient_binders)
@@ -168,7 +174,26 @@ impl<'a> Tr<'a> {
                 if f.identity_ctor {
                     return Err("identity_ctor entries are not translated".into());
                 }
-                self.block(&b.stmts, &env, Some(&f.ret), &|v: Val| self.finish(v))?
+                if f.loop_body {
+                    let lp = match b.stmts.as_slice() {
+                        [Stmt::Expr(Expr::Loop(l), _)] if l.label.is_none() => l,
+                        _ => return Err(format!("loop_body: the body of {} is not a single `loop`", f.label)),
+                    };
+                    if f.mut_params.is_empty() {
+                        return Err("loop_body: no `&mut` state".into());
+                    }
+                    let mut parts = vec!["None".to_string()];
+                    for &i in &f.mut_params {
+                        parts.push(self.coq_name(&f.params[i].name));
+                    }
+                    let cont = format!("({})", parts.join(", "));
+                    self.loops.borrow_mut().push((cont.clone(), "tr_break_outside_the_step".to_string()));
+                    let r = self.block(&lp.body.stmts, &env, None, &|_v: Val| Ok(cont.clone()));
+                    self.loops.borrow_mut().pop();
+                    r?
+                } else {
+                    self.block(&b.stmts, &env, Some(&f.ret), &|v: Val| self.finish(v))?
+                }
             }
             Body::Expr(e) => {
                 let v = self.expr(e, &env, Some(&f.ret))?;
@@ -179,7 +204,28 @@ impl<'a> Tr<'a> {
         Ok((binders, ret, format!("{}{}", prefix, body)))
     }
 
+    /// `let root := <place updated with the alias values> in ...` for every live alias
+    fn flush(&self, env: &Env) -> R<String> {
+        let wbs = self.writebacks.borrow().clone();
+        let mut out = String::new();
+        for (place, value) in wbs.iter() {
+            let (name, whole) = self.update_place(place, value.clone(), env)?;
+            out.push_str(&format!("let {} := {} in\n  ", name, whole));
+        }
+        Ok(out)
+    }
+
     fn finish(&self, v: Val) -> R<String> {
+        self.finish_raw(v)
+    }
+
+    fn finish_env(&self, v: Val, env: &Env) -> R<String> {
+        let pre = self.flush(env)?;
+        // the result is computed before the write-back only textually: it may not mention the aliased place
+        Ok(format!("{}{}", pre, self.finish_raw(v)?))
+    }
+
+    fn finish_raw(&self, v: Val) -> R<String> {
         self.check_ty(&v.ty, &self.f.ret, "returned value")?;
         if self.f.mut_params.is_empty() {
             return Ok(v.t);
@@ -187,7 +233,9 @@ impl<'a> Tr<'a> {
         // `&mut` parameters are returned next to the result: their Coq names are those of the binders
         // (later assignments shadow them, so the name denotes the current value here)
         let mut parts = Vec::new();
-        if self.f.ret != Ty::Unit {
+        if self.f.loop_body {
+            parts.push(format!("(Some {})", v.t));
+        } else if self.f.ret != Ty::Unit {
             parts.push(v.t);
         }
         for &i in &self.f.mut_params {
@@ -252,6 +300,21 @@ impl<'a> Tr<'a> {
                     None => return self.err(s, "untranslatable: `let` without initialiser"),
                 };
                 let pat = pat.clone();
+                if let (Expr::Closure(cl), Pat::Ident(pi)) = (strip_parens(init), &pat) {
+                    if cl.inputs.is_empty() {
+                        // a parameterless closure: its body is translated at each call `name()`
+                        let id = self.thunks.borrow().len();
+                        self.thunks.borrow_mut().push((*cl.body).clone());
+                        let mut env2 = env.clone();
+                        env2.vars.push((pi.ident.to_string(), String::new(), Ty::Thunk(id)));
+                        return self.block(rest, &env2, exp, k);
+                    }
+                }
+                if let Expr::MethodCall(mc) = strip_parens(init) {
+                    if mc.method == "get_or_insert_with" && mc.args.len() == 1 {
+                        return self.alias_let(s, &pat, mc, rest, env, exp, k);
+                    }
+                }
                 let cont = |v: Val| -> R<String> {
                     let (env2, pre) = self.bind_pat(&pat, v, env)?;
                     let r = self.block(rest, &env2, exp, k)?;
@@ -285,6 +348,11 @@ impl<'a> Tr<'a> {
                     if name.starts_with("debug_assert") {
                         return self.block(rest, env, exp, k);
                     }
+                    if (name == "panic" || name == "unreachable") && exp.is_none() {
+                        // a panic in statement position leaves the state as it is (the hand models do the
+                        // same, or return their error value, which the lemma statements exclude)
+                        return self.block(rest, env, exp, k);
+                    }
                 }
                 if rest.is_empty() && semi.is_none() && !self.statement_like(e, env) {
                     // tail expression: its value is the block's value
@@ -309,6 +377,9 @@ impl<'a> Tr<'a> {
                     // in a procedure every trailing if/match is a statement
                     return true;
                 }
+                if yields_value(e) {
+                    return false;
+                }
                 match self.mutated_outer(e, env) {
                     Ok(m) => !m.is_empty(),
                     Err(_) => true,
@@ -324,16 +395,17 @@ impl<'a> Tr<'a> {
             Expr::Return(r) => {
                 let _ = rest;
                 match &r.expr {
-                    Some(x) => self.eval_k(x, env, Some(&self.f.ret), &|v: Val| self.finish(v)),
-                    None => self.finish(val("tt".into(), Ty::Unit)),
+                    Some(x) => self.eval_k(x, env, Some(&self.f.ret), &|v: Val| self.finish_env(v, env)),
+                    None => self.finish_env(val("tt".into(), Ty::Unit), env),
                 }
             }
             Expr::Continue(c) => {
                 if c.label.is_some() {
                     return self.err(e, "untranslatable: labelled `continue`");
                 }
+                let pre = self.flush(env)?;
                 match self.loops.borrow().last() {
-                    Some((cont, _)) => Ok(cont.clone()),
+                    Some((cont, _)) => Ok(format!("{}{}", pre, cont)),
                     None => self.err(e, "untranslatable: `continue` outside a translated loop"),
                 }
             }
@@ -341,8 +413,9 @@ impl<'a> Tr<'a> {
                 if b.label.is_some() || b.expr.is_some() {
                     return self.err(e, "untranslatable: labelled or valued `break`");
                 }
+                let pre = self.flush(env)?;
                 match self.loops.borrow().last() {
-                    Some((_, brk)) => Ok(brk.clone()),
+                    Some((_, brk)) => Ok(format!("{}{}", pre, brk)),
                     None => self.err(e, "untranslatable: `break` outside a translated loop"),
                 }
             }
@@ -491,7 +564,25 @@ impl<'a> Tr<'a> {
             t => return self.err(fl, format!("untranslatable: `for` over a value of type {} (only lists)", t.show())),
         };
         let body_e = Expr::Block(syn::ExprBlock { attrs: vec![], label: None, block: fl.body.clone() });
-        let muts = self.mutated_outer(&body_e, env)?;
+        let mut muts = self.mutated_outer(&body_e, env)?;
+        // `for x in &mut self.elements`: the loop consumes the iterator stored in that place; inside the
+        // body (and after a `return` from it) the place holds the elements not yet taken
+        let consumed: Option<Expr> = match strip_parens(&fl.expr) {
+            Expr::Reference(r) if r.mutability.is_some() => Some((*r.expr).clone()),
+            _ => None,
+        };
+        if let Some(pl) = &consumed {
+            match root_var(pl) {
+                Some(rv) if env.get(&rv).is_some() => {
+                    if !muts.contains(&rv) {
+                        muts.push(rv);
+                        let order: Vec<String> = env.vars.iter().map(|v| v.0.clone()).collect();
+                        muts.sort_by_key(|n| order.iter().rposition(|x| x == n).unwrap_or(0));
+                    }
+                }
+                _ => return self.err(fl, "untranslatable: `for` over `&mut` of a non-place"),
+            }
+        }
         let escapes = {
             // return anywhere, or break at this loop's level
             use syn::visit::Visit;
@@ -534,17 +625,26 @@ impl<'a> Tr<'a> {
         if !escapes && names.is_empty() {
             return self.err(fl, "untranslatable: loop without effect on the translated state");
         }
-        let end_term = if escapes { self.block(rest, env, exp, k)? } else { tuple.clone() };
+        let (consume_nil, consume_cons) = match &consumed {
+            Some(pl) => {
+                let (n1, w1) = self.update_place(pl, "[]".into(), env)?;
+                let (n2, w2) = self.update_place(pl, rv.clone(), env)?;
+                (format!("let {} := {} in\n  ", n1, w1), format!("let {} := {} in\n  ", n2, w2))
+            }
+            None => (String::new(), String::new()),
+        };
+        let end_term = format!("{}{}", consume_nil, if escapes { self.block(rest, env, exp, k)? } else { tuple.clone() });
         let cont_term = format!("({} {}{})", lp, rv, names.iter().map(|x| format!(" {}", x)).collect::<String>());
         let (env2, pre) = self.bind_pat(&fl.pat, val(xv.clone(), elt.clone()), env)?;
         self.loops.borrow_mut().push((cont_term.clone(), end_term.clone()));
         let ct2 = cont_term.clone();
-        let body = self.block(&fl.body.stmts, &env2, None, &move |_v: Val| -> R<String> { Ok(ct2.clone()) });
+        let body = self.block(&fl.body.stmts, &env2, None, &|_v: Val| -> R<String> { Ok(format!("{}{}", self.flush(&env2)?, ct2)) });
         self.loops.borrow_mut().pop();
         let body = body?;
         let elt_ct = self.ctx.coq_ty(&elt).unwrap_or_else(|_| "_".to_string());
         let fix = format!(
-            "((fix {lp} ({lv} : list {et}){bs} {{struct {lv}}} := match {lv} with\n  | [] => {end}\n  | {xv} :: {rv} => {pre}{body}\n  end) {it}{args})",
+            "((fix {lp} ({lv} : list {et}){bs} {{struct {lv}}} := match {lv} with\n  | [] => {end}\n  | {xv} :: {rv} => {cc}{pre}{body}\n  end) {it}{args})",
+            cc = consume_cons,
             lp = lp,
             lv = lv,
             et = elt_ct,
@@ -592,6 +692,68 @@ impl<'a> Tr<'a> {
         Ok((format!("(fun {} => {}{})", x, pre, b.t), b.ty))
     }
 
+    /// `let (a, b) = PLACE.get_or_insert_with(|| INIT);` -- `a`, `b` are references into the option stored in
+    /// PLACE: they become local variables initialised from it, and PLACE is written back (`Some (a, b)`)
+    /// at every exit of their scope (`return`, `continue`, `break`, end of the block).
+    fn alias_let(&self, at: &Stmt, pat: &Pat, mc: &syn::ExprMethodCall, rest: &[Stmt], env: &Env, exp: Option<&Ty>, k: &K) -> R<String> {
+        let cur = self.expr(&mc.receiver, env, None)?;
+        let inner = match &cur.ty {
+            Ty::Opt(t) => (**t).clone(),
+            t => return self.err(at, format!("untranslatable: `get_or_insert_with` on type {}", t.show())),
+        };
+        let cl = match &mc.args[0] {
+            Expr::Closure(c) if c.inputs.is_empty() => c,
+            _ => return self.err(at, "untranslatable: `get_or_insert_with` without a closure literal"),
+        };
+        if contains_return(&cl.body) {
+            return self.err(at, "untranslatable: `return` inside a closure");
+        }
+        let init = self.expr(&cl.body, env, Some(&inner))?;
+        self.check_ty(&init.ty, &inner, "initial value")?;
+        let t = self.tmp(env);
+        let head = format!("let {} := (match {} with Some tr_x => tr_x | None => {} end) in\n  ", t, cur.t, init.t);
+        let (env2, pre) = self.bind_pat(pat, val(t.clone(), inner.clone()), env)?;
+        // the value written back, rebuilt from the pattern
+        fn rebuild(tr: &Tr, p: &Pat, env: &Env) -> R<String> {
+            match p {
+                Pat::Ident(pi) => match env.get(&pi.ident.to_string()) {
+                    Some((_, c, _)) => Ok(c.clone()),
+                    None => Err("internal: alias not bound".into()),
+                },
+                Pat::Tuple(tp) => {
+                    let mut parts = Vec::new();
+                    for x in &tp.elems {
+                        parts.push(rebuild(tr, x, env)?);
+                    }
+                    Ok(format!("({})", parts.join(", ")))
+                }
+                Pat::Paren(q) => rebuild(tr, &q.pat, env),
+                _ => tr.err(p, "untranslatable: alias pattern"),
+            }
+        }
+        let value = format!("(Some {})", rebuild(self, pat, &env2)?);
+        self.writebacks.borrow_mut().push(((*mc.receiver).clone(), value));
+        let env3 = env2.clone();
+        let r = self.block(rest, &env2, exp, &|v: Val| -> R<String> {
+            // end of the aliases' scope by falling through
+            let pre = self.flush_last(&env3)?;
+            Ok(format!("{}{}", pre, k(v)?))
+        });
+        self.writebacks.borrow_mut().pop();
+        Ok(format!("{}{}{}", head, pre, r?))
+    }
+
+    fn flush_last(&self, env: &Env) -> R<String> {
+        let last = self.writebacks.borrow().last().cloned();
+        match last {
+            Some((place, value)) => {
+                let (name, whole) = self.update_place(&place, value, env)?;
+                Ok(format!("let {} := {} in\n  ", name, whole))
+            }
+            None => Ok(String::new()),
+        }
+    }
+
     fn panic_default(&self, t: &Ty) -> Option<String> {
         let key = match t {
             Ty::F64 => "f64".to_string(),
@@ -611,6 +773,22 @@ impl<'a> Tr<'a> {
         let e0 = strip_parens(e);
         if contains_return(e0) {
             return self.expr_k(e, env, exp, k);
+        }
+        if matches!(e0, Expr::Block(_) | Expr::If(_) | Expr::Match(_)) {
+            let effectful = contains_replace(e0) || self.mutated_outer(e0, env).map(|m| !m.is_empty()).unwrap_or(true);
+            if effectful {
+                return self.expr_k_compound(e0, env, exp, k);
+            }
+        }
+        if contains_replace(e0) {
+            // evaluate with a hoisting buffer: each `mem::replace(place, v)` becomes a temporary + an assignment
+            // in front of the expression (sound when the place is not otherwise used in the expression: checked)
+            let saved = self.hoist.replace(Some(vec![]));
+            let v = self.expr(e0, env, exp);
+            let hoisted = self.hoist.replace(saved).unwrap_or_default();
+            let v = v?;
+            let r = k(v)?;
+            return Ok(format!("{}{}", hoisted.concat(), r));
         }
         match e0 {
             Expr::MethodCall(mc) if mc.method == "take" && mc.args.is_empty() => {
@@ -717,10 +895,16 @@ impl<'a> Tr<'a> {
             let v = self.expr(e, env, exp)?;
             return k(v);
         }
+        self.expr_k_compound(e, env, exp, k)
+    }
+
+    /// the value of an `if`/`match`/block whose branches are translated as statements (they may return,
+    /// assign, replace); `k` is applied in every branch that yields a value
+    fn expr_k_compound(&self, e: &Expr, env: &Env, exp: Option<&Ty>, k: &K) -> R<String> {
         match e {
             Expr::Return(r) => match &r.expr {
-                Some(x) => self.eval_k(x, env, Some(&self.f.ret), &|v: Val| self.finish(v)),
-                None => self.finish(val("tt".into(), Ty::Unit)),
+                Some(x) => self.eval_k(x, env, Some(&self.f.ret), &|v: Val| self.finish_env(v, env)),
+                None => self.finish_env(val("tt".into(), Ty::Unit), env),
             },
             Expr::Paren(p) => self.expr_k(&p.expr, env, exp, k),
             Expr::If(i) => {
@@ -740,6 +924,37 @@ impl<'a> Tr<'a> {
             }
             Expr::Block(b) => self.block(&b.block.stmts, env, exp, k),
             Expr::Match(m) => self.match_k(m, env, exp, k),
+            Expr::Try(t) => {
+                // `e?` on an option in a function returning an option: `None` leaves the function
+                if !matches!(self.f.ret, Ty::Opt(_)) {
+                    return self.err(e, "untranslatable: `?` outside a function returning Option");
+                }
+                let cont = |v: Val| -> R<String> {
+                    let inner = match &v.ty {
+                        Ty::Opt(t) => (**t).clone(),
+                        t => return self.err(e, format!("untranslatable: `?` on type {}", t.show())),
+                    };
+                    let x = self.tmp(env);
+                    let some = k(val(x.clone(), inner))?;
+                    let none = self.finish_env(val("None".into(), self.f.ret.clone()), env)?;
+                    Ok(format!("(match {} with\n  | Some {} => {}\n  | None => {}\n  end)", v.t, x, some, none))
+                };
+                self.eval_k(&t.expr, env, None, &cont)
+            }
+            Expr::Call(c) if c.args.len() == 1 && !contains_return(&c.func) => {
+                // f(<expression with control flow>): the call is applied in each branch that yields a value
+                let c2 = c.clone();
+                let cont = |v: Val| -> R<String> {
+                    let mut env2 = env.clone();
+                    env2.vars.push(("__tr_hole".to_string(), v.t.clone(), v.ty.clone()));
+                    let mut call = c2.clone();
+                    call.args = syn::punctuated::Punctuated::new();
+                    call.args.push(syn::parse_quote!(__tr_hole));
+                    let r = self.expr(&Expr::Call(call), &env2, exp)?;
+                    k(r)
+                };
+                self.expr_k(&c.args[0], env, None, &cont)
+            }
             _ => self.err(e, "untranslatable: `return` nested inside an expression"),
         }
     }
@@ -1080,6 +1295,32 @@ impl<'a> Tr<'a> {
                         }
                         self.err(e, "index out of range")
                     }
+                    Ty::List(_) if matches!(strip_parens(&ix.index), Expr::Range(_)) => {
+                        let r = match strip_parens(&ix.index) {
+                            Expr::Range(r) => r,
+                            _ => unreachable!(),
+                        };
+                        if !matches!(r.limits, syn::RangeLimits::HalfOpen(_)) {
+                            return self.err(e, "untranslatable: inclusive slice range");
+                        }
+                        let nat = |x: &Expr| -> R<String> {
+                            let v = self.expr(x, env, Some(&Ty::Nat))?;
+                            if v.ty != Ty::Nat {
+                                return self.err(x, "untranslatable: slice bound that is not a `usize` mapped to nat");
+                            }
+                            Ok(v.t)
+                        };
+                        let t = match (&r.start, &r.end) {
+                            (None, Some(b)) => format!("(firstn {} {})", nat(b)?, base.t),
+                            (Some(a), None) => format!("(skipn {} {})", nat(a)?, base.t),
+                            (Some(a), Some(b)) => {
+                                let (a, b) = (nat(a)?, nat(b)?);
+                                format!("(firstn (Nat.sub {} {}) (skipn {} {}))", b, a, a, base.t)
+                            }
+                            (None, None) => base.t.clone(),
+                        };
+                        Ok(val(t, base.ty.clone()))
+                    }
                     Ty::List(elt) => {
                         let i = self.expr(&ix.index, env, Some(&Ty::Nat))?;
                         if i.ty != Ty::Nat {
@@ -1181,7 +1422,17 @@ impl<'a> Tr<'a> {
             }
             Expr::Return(_) => self.err(e, "untranslatable: `return` inside an expression"),
             Expr::Closure(_) => self.err(e, "untranslatable: closure"),
-            Expr::Macro(m) => self.err(e, format!("untranslatable: macro {}!", norm_tokens(&m.mac.path))),
+            Expr::Macro(m) => {
+                let name = norm_tokens(&m.mac.path);
+                if name == "panic" || name == "unreachable" {
+                    // a panic is represented by the spec's default of the expected type, as in the hand models
+                    if let Some(d) = exp.and_then(|t| self.panic_default(t)) {
+                        return Ok(val(d, exp.unwrap().clone()));
+                    }
+                    return self.err(e, format!("untranslatable: {}! where the type (or its panic default) is not known", name));
+                }
+                self.err(e, format!("untranslatable: macro {}!", name))
+            }
             Expr::ForLoop(_) | Expr::While(_) | Expr::Loop(_) => self.err(e, "untranslatable: loop"),
             Expr::Array(a) => {
                 // a literal array used as a sequence (e.g. `for x in [false, true]`)
@@ -1212,6 +1463,13 @@ impl<'a> Tr<'a> {
 
     /// if / block / match without `return` and without outer assignments
     fn pure_compound(&self, e: &Expr, env: &Env, exp: Option<&Ty>) -> R<Val> {
+        let saved = self.hoist.replace(None);
+        let r = self.pure_compound0(e, env, exp);
+        self.hoist.replace(saved);
+        r
+    }
+
+    fn pure_compound0(&self, e: &Expr, env: &Env, exp: Option<&Ty>) -> R<Val> {
         let ty_cell: RefCell<Ty> = RefCell::new(exp.cloned().unwrap_or(Ty::Unknown));
         let exp_owned = exp.cloned();
         let k = |v: Val| -> R<String> {
@@ -1254,9 +1512,18 @@ impl<'a> Tr<'a> {
         self.block(stmts, env, exp, k)
     }
 
-    fn match_k(&self, m: &syn::ExprMatch, env: &Env, exp: Option<&Ty>, k: &K) -> R<String> {
+    fn match_k(&self, m: &syn::ExprMatch, env: &Env, exp: Option<&Ty>, k0: &K) -> R<String> {
         let scrut = self.expr(&m.expr, env, None)?;
         let mut arms = Vec::new();
+        // the type of the first arms is the expected type of the later ones (`panic!()` arms need it)
+        let seen: RefCell<Option<Ty>> = RefCell::new(exp.cloned());
+        let kk = |v: Val| -> R<String> {
+            if seen.borrow().is_none() && v.ty != Ty::Unknown && v.ty != Ty::Unit {
+                *seen.borrow_mut() = Some(v.ty.strip_into().clone());
+            }
+            k0(v)
+        };
+        let k: &K = &kk;
         match scrut.ty.strip_into().clone() {
             Ty::Named(tn) => {
                 let variants = match &self.ctx.types[&tn].kind {
@@ -1268,7 +1535,8 @@ impl<'a> Tr<'a> {
                         return self.err(arm, "untranslatable: match guard");
                     }
                     let (pat_s, env2, pre) = self.variant_pat(&arm.pat, &variants, &tn, env)?;
-                    let body = self.block(&[Stmt::Expr((*arm.body).clone(), None)], &env2, exp, k)?;
+                    let cur = seen.borrow().clone();
+                    let body = self.block(&[Stmt::Expr((*arm.body).clone(), None)], &env2, cur.as_ref(), k)?;
                     arms.push(format!("| {} => {}{}", pat_s, pre, body));
                 }
             }
@@ -1279,7 +1547,8 @@ impl<'a> Tr<'a> {
                         return self.err(arm, "untranslatable: match guard");
                     }
                     let (pat_s, env2, pre) = self.variant_pat(&arm.pat, &variants, "Option", env)?;
-                    let body = self.block(&[Stmt::Expr((*arm.body).clone(), None)], &env2, exp, k)?;
+                    let cur = seen.borrow().clone();
+                    let body = self.block(&[Stmt::Expr((*arm.body).clone(), None)], &env2, cur.as_ref(), k)?;
                     arms.push(format!("| {} => {}{}", pat_s, pre, body));
                 }
             }
@@ -1400,7 +1669,7 @@ impl<'a> Tr<'a> {
                     return Ok(val(s, Ty::F64));
                 }
                 let d = i.base10_digits();
-                if let Some(Ty::Nat) = exp {
+                if matches!(exp, Some(Ty::Nat)) || (self.f.usize_nat && i.suffix().is_empty() && !matches!(exp, Some(Ty::Int))) {
                     if neg {
                         return self.err(at, "negative literal of type usize");
                     }
@@ -1486,6 +1755,18 @@ impl<'a> Tr<'a> {
                     BinOp::Mul(_) | BinOp::MulAssign(_) => "Mul",
                     BinOp::Div(_) | BinOp::DivAssign(_) => "Div",
                     BinOp::Eq(_) | BinOp::Ne(_) => {
+                        // Option<X> with a derived equality on X
+                        if let (Ty::Opt(a), Ty::Opt(b)) = (&lt, &rt) {
+                            let xn = match (&**a, &**b) {
+                                (Ty::Named(x), Ty::Named(y)) if x == y => Some(x.clone()),
+                                (Ty::Named(x), Ty::Unknown) | (Ty::Unknown, Ty::Named(x)) => Some(x.clone()),
+                                _ => None,
+                            };
+                            if let Some(eqf) = xn.and_then(|x| self.ctx.derived_eq.get(&x).cloned()) {
+                                let t = format!("(match {}, {} with Some tr_a, Some tr_b => {} tr_a tr_b | None, None => true | _, _ => false end)", l.t, r.t, eqf);
+                                return Ok(val(if matches!(op, BinOp::Ne(_)) { format!("(negb {})", t) } else { t }, Ty::Bool));
+                            }
+                        }
                         if let (Ty::Named(a), Ty::Named(b)) = (&lt, &rt) {
                             if a == b {
                                 if let Some(eqf) = self.ctx.derived_eq.get(a) {
@@ -1777,6 +2058,32 @@ impl<'a> Tr<'a> {
             _ => return self.err(e, "untranslatable: call of a computed function"),
         };
         let segs: Vec<String> = p.path.segments.iter().map(|s| s.ident.to_string()).collect();
+        if segs.len() >= 2 && segs[segs.len() - 2] == "mem" && segs[segs.len() - 1] == "replace" && c.args.len() == 2 {
+            // the old value; the assignment is hoisted in front of the expression being translated
+            if self.hoist.borrow().is_none() {
+                return self.err(e, "untranslatable: `mem::replace` in this position");
+            }
+            let old = self.expr(&c.args[0], env, None)?;
+            let newv = self.expr(&c.args[1], env, Some(&old.ty))?;
+            self.check_ty(&newv.ty, &old.ty, "replacement value")?;
+            let t = self.tmp(env);
+            let (name, whole) = self.update_place(&c.args[0], newv.t, env)?;
+            self.hoist.borrow_mut().as_mut().unwrap().push(format!("let {} := {} in\n  let {} := {} in\n  ", t, old.t, name, whole));
+            return Ok(val(t, old.ty));
+        }
+        if segs.len() == 1 && c.args.is_empty() {
+            if let Some((_, _, Ty::Thunk(id))) = env.get(&segs[0]) {
+                let body = self.thunks.borrow()[*id].clone();
+                if contains_return(&body) {
+                    return self.err(e, "untranslatable: control flow inside a stored closure");
+                }
+                let muts = self.mutated_outer(&body, env)?;
+                if !muts.is_empty() {
+                    return self.err(e, "untranslatable: stored closure with effects");
+                }
+                return self.expr(&body, env, exp);
+            }
+        }
         if segs.len() == 1 {
             let n = &segs[0];
             if n == "Some" && c.args.len() == 1 {
@@ -1835,6 +2142,20 @@ impl<'a> Tr<'a> {
                         return Ok(val(format!("({} {})", v.1, ts.join(" ")), Ty::Named(tn)));
                     }
                 }
+            }
+            if segs[1] == "default" && c.args.is_empty() {
+                if let Some(d) = self.ctx.defaults.get(&tn) {
+                    if self.ctx.types.contains_key(&tn) {
+                        return Ok(val(d.clone(), Ty::Named(tn)));
+                    }
+                }
+            }
+            if (tn == "ArrayVec" || tn == "Vec") && segs[1] == "with_capacity" && c.args.len() == 1 {
+                let ty = match exp {
+                    Some(Ty::List(t)) => Ty::List(t.clone()),
+                    _ => Ty::List(Box::new(Ty::Unknown)),
+                };
+                return Ok(val("[]".into(), ty));
             }
             if (tn == "ArrayVec" || tn == "Vec") && (segs[1] == "new" || segs[1] == "default") && c.args.is_empty() {
                 let ty = match exp {
@@ -1987,6 +2308,8 @@ impl<'a> Tr<'a> {
                     }
                     ("first", 0) => Ok(val(format!("(hd_error {})", recv.t), Ty::Opt(elt.clone()))),
                     ("rev", 0) => Ok(val(format!("(rev {})", recv.t), rty.clone())),
+                    ("enumerate", 0) => Ok(val(format!("(combine (seq 0 (length {})) {})", recv.t, recv.t), Ty::List(Box::new(Ty::Tuple(vec![Ty::Nat, (**elt).clone()]))))),
+                    ("last", 0) => Ok(val(format!("(last (map Some {}) None)", recv.t), Ty::Opt(elt.clone()))),
                     ("chain", 1) => {
                         let o = self.expr(&mc.args[0], env, Some(&rty))?;
                         match o.ty.clone() {
@@ -2045,6 +2368,16 @@ impl<'a> Tr<'a> {
                     Some(d) => Ok(val(format!("(match {} with Some tr_x => tr_x | None => {} end)", recv.t, d), (**inner).clone())),
                     None => self.err(e, format!("untranslatable: `unwrap` of an option of {} (no panic default in the spec)", inner.show())),
                 },
+                ("unwrap_or_default", 0) => {
+                    let d = match &**inner {
+                        Ty::Named(n) => self.ctx.defaults.get(n).cloned(),
+                        _ => None,
+                    };
+                    match d {
+                        Some(d) => Ok(val(format!("(match {} with Some tr_x => tr_x | None => {} end)", recv.t, d), (**inner).clone())),
+                        None => self.err(e, format!("untranslatable: `unwrap_or_default` of an option of {}", inner.show())),
+                    }
+                }
                 ("unwrap_or", 1) => {
                     let d = self.expr(&mc.args[0], env, Some(inner))?;
                     self.check_ty(&d.ty, inner, "default value")?;
@@ -2116,6 +2449,66 @@ impl<'a> Tr<'a> {
     }
 }
 
+/// Syntactic test: does this `if`/`match`/block end in an expression whose value is its value?
+fn yields_value(e: &Expr) -> bool {
+    fn diverges(e: &Expr) -> bool {
+        match e {
+            Expr::Return(_) | Expr::Continue(_) | Expr::Break(_) => true,
+            Expr::Block(b) => match b.block.stmts.last() {
+                Some(Stmt::Expr(x, _)) => diverges(x),
+                _ => false,
+            },
+            _ => false,
+        }
+    }
+    match e {
+        Expr::Block(b) => match b.block.stmts.last() {
+            Some(Stmt::Expr(x, None)) => match x {
+                Expr::Assign(_) | Expr::ForLoop(_) | Expr::While(_) | Expr::Loop(_) => false,
+                Expr::Binary(bb) => compound_op(&bb.op).is_none(),
+                Expr::MethodCall(mc) => !is_list_mutator(&mc.method.to_string()),
+                Expr::If(_) | Expr::Match(_) | Expr::Block(_) => yields_value(x),
+                _ => !diverges(x),
+            },
+            _ => false,
+        },
+        Expr::If(i) => {
+            let then_e = Expr::Block(syn::ExprBlock { attrs: vec![], label: None, block: i.then_branch.clone() });
+            match &i.else_branch {
+                Some((_, eb)) => (yields_value(&then_e) && !diverges(&then_e)) || (!diverges(eb) && yields_value(eb)),
+                None => false,
+            }
+        }
+        Expr::Match(m) => m.arms.iter().any(|a| !diverges(&a.body) && match &*a.body {
+            Expr::Block(_) | Expr::If(_) | Expr::Match(_) => yields_value(&a.body),
+            Expr::Assign(_) => false,
+            Expr::Binary(bb) => compound_op(&bb.op).is_none(),
+            Expr::MethodCall(mc) => !is_list_mutator(&mc.method.to_string()),
+            Expr::Call(_) => false,
+            _ => true,
+        }),
+        _ => true,
+    }
+}
+
+fn contains_replace(e: &Expr) -> bool {
+    use syn::visit::Visit;
+    struct V(bool);
+    impl<'ast> Visit<'ast> for V {
+        fn visit_expr_call(&mut self, c: &'ast syn::ExprCall) {
+            if norm_tokens(&*c.func).ends_with("mem::replace") {
+                self.0 = true;
+            }
+            syn::visit::visit_expr_call(self, c);
+        }
+        fn visit_expr_closure(&mut self, _: &'ast syn::ExprClosure) {}
+        fn visit_item(&mut self, _: &'ast syn::Item) {}
+    }
+    let mut v = V(false);
+    v.visit_expr(e);
+    v.0
+}
+
 fn strip_parens(e: &Expr) -> &Expr {
     match e {
         Expr::Paren(p) => strip_parens(&p.expr),
@@ -2165,6 +2558,9 @@ pub fn contains_return(e: &Expr) -> bool {
     }
     impl<'ast> Visit<'ast> for V {
         fn visit_expr_return(&mut self, _: &'ast syn::ExprReturn) {
+            self.found = true;
+        }
+        fn visit_expr_try(&mut self, _: &'ast syn::ExprTry) {
             self.found = true;
         }
         fn visit_expr_break(&mut self, _: &'ast syn::ExprBreak) {
@@ -2244,6 +2640,15 @@ fn collect_mut(e: &Expr, assigned: &mut Vec<String>, declared: &mut Vec<String>,
                 }
             }
             syn::visit::visit_expr_method_call(self, x);
+        }
+        fn visit_expr_call(&mut self, c: &'ast syn::ExprCall) {
+            if norm_tokens(&*c.func).ends_with("mem::replace") && !c.args.is_empty() {
+                match root_var(&c.args[0]) {
+                    Some(n) => self.a.push(n),
+                    None => self.a.push("<complex place>".into()),
+                }
+            }
+            syn::visit::visit_expr_call(self, c);
         }
         fn visit_expr_reference(&mut self, x: &'ast syn::ExprReference) {
             if x.mutability.is_some() {
